@@ -40,22 +40,91 @@ Fixpoint count_occ_s (needle hay : string) : nat :=
   | String _ r => (match prefix_rest needle hay with Some _ => 1 | None => 0 end) + count_occ_s needle r
   end.
 
-(* what a node must show: message, kind, every field name, every frame's function and file:line *)
-Definition node_tokens (e : err) : list string :=
-  if is_errdef_error e then
-    ([err_msg e] ++ (if str_eqb (e_kind e) "" then [] else [("kind: " ++ e_kind e)%string])
-    ++ (match e_fields_all e with [] => [] | all => "fields:" :: map (fun nv => (fst nv ++ ": ")%string) all end)
-    ++ (match e_stack e with [] => []
-        | fs => "stack:" :: flat_map (fun f => if str_eqb (fr_file f) "" then [] else [fr_func f; (fr_file f ++ ":" ++ dec_Z (fr_line f))%string]) fs end))%list
-  else [err_msg e].
-Definition header_token (n : nat) : list string :=
-  match n with O => [] | 1 => ["causes: (1 error)"] | _ => ["causes: (" ++ dec_nat n ++ " errors)"] end.
+(* ---- specification v2: tokens carry their line start (newline + indentation), field values,
+   node labels and the marked snippet line ---- *)
+Definition field_toks (ind : string) (nv : string * fval) : list string :=
+  let v := fv_plus (snd nv) in
+  if has_nl v
+  then (nl ++ ind ++ "  " ++ fst nv ++ ": |") :: map (fun l => nl ++ ind ++ "    " ++ l) (split_nl v)
+  else [nl ++ ind ++ "  " ++ fst nv ++ ": " ++ v].
 
-(* depth-first pre-order over the cause tree, each node followed by its causes header *)
-Fixpoint tree_tokens (t : tree) : list string :=
-  match t with
-  | T e kids => (node_tokens e ++ header_token (List.length kids) ++ flat_map tree_tokens kids)%list
+(* the harness reads source files line by line: no line contains a newline *)
+Definition srcmap_wf (m : srcmap) : bool :=
+  forallb (fun e => forallb (fun l => negb (has_nl l)) (w_lines (snd e))) m.
+
+(* the snippet line of the frame's own line: marked, numbered with the frame's line (numbers
+   right-aligned to the width of the window's last number), showing that line's text *)
+Definition marked_line (w : window) (line : Z) : option string :=
+  let k := (line - w_start w)%Z in
+  if Z.ltb k 0 then None
+  else match nth_error (w_lines w) (Z.to_nat k) with
+       | Some text =>
+           let last := (w_start w + Z.of_nat (List.length (w_lines w)) - 1)%Z in
+           Some ("> " ++ pad_left (String.length (dec_Z last)) (dec_Z line) ++ ": " ++ text)
+       | None => None
+       end.
+
+Definition frame_toks (m : srcmap) (sl sd : Z) (ind : string) (il : nat * frame) : list string :=
+  let f := snd il in
+  if str_eqb (fr_file f) "" then []
+  else List.app [nl ++ ind ++ "  " ++ fr_func f; nl ++ ind ++ "    " ++ fr_file f ++ ":" ++ dec_Z (fr_line f)]
+       (if want_source sl sd (fst il) f
+        then match lookup_src m (fr_file f) (fr_line f) with
+             | Some w => match marked_line w (fr_line f) with
+                         | Some t => [nl ++ ind ++ "    " ++ t]
+                         | None => []
+                         end
+             | None => []
+             end
+        else []).
+
+(* what the detail block of an errdef node must show, each item at the start of a line
+   indented by [ind] *)
+Definition detail_toks (m : srcmap) (e : err) (ind : string) : list string :=
+  List.app (if str_eqb (e_kind e) "" then [] else [nl ++ ind ++ "kind: " ++ e_kind e])
+  (List.app (match e_fields_all e with
+    | [] => []
+    | all => (nl ++ ind ++ "fields:") :: flat_map (field_toks ind) all
+    end)
+   (match e_stack e with
+    | [] => []
+    | fs => (nl ++ ind ++ "stack:") ::
+            flat_map (frame_toks m (fst (src_settings e)) (snd (src_settings e)) ind)
+                     (combine (seq 0 (List.length fs)) fs)
+    end)).
+
+Definition header_tok (ind : string) (n : nat) : list string :=
+  match n with
+  | O => []
+  | 1 => [nl ++ ind ++ "causes: (1 error)"]
+  | _ => [nl ++ ind ++ "causes: (" ++ dec_nat n ++ " errors)"]
   end.
+
+(* node number i (from 0) of a causes list printed at indentation [ind]: its label line
+   "[i+1] message", then its details, header and children four columns deeper *)
+Fixpoint node_toks (m : srcmap) (ind : string) (i : nat) (t : tree) : list string :=
+  match t with
+  | T e kids =>
+      let ind' := ind ++ "    " in
+      (nl ++ ind ++ "[" ++ dec_nat (S i) ++ "] " ++ err_msg e) ::
+      List.app (if is_errdef_error e then detail_toks m e ind' else [])
+      (List.app (header_tok ind' (List.length kids))
+       (List.concat ((fix go (j : nat) (l : list tree) : list (list string) :=
+                        match l with [] => [] | k :: r => node_toks m ind' j k :: go (S j) r end) 0 kids)))
+  end.
+
+Definition nodes_toks (m : srcmap) (ind : string) (ts : list tree) : list string :=
+  List.concat ((fix go (j : nat) (l : list tree) : list (list string) :=
+                  match l with [] => [] | k :: r => node_toks m ind j k :: go (S j) r end) 0 ts).
+
+(* everything %+v must show after the top-level message *)
+Definition plus_toks (m : srcmap) (e : err) : list string :=
+  let kids := unwrap_tree e in
+  List.app (detail_toks m e "") (List.app (header_tok "" (List.length kids)) (nodes_toks m "  " kids)).
+
+(* the text starts with the message and then shows the tokens in order *)
+Definition shows_after_msg (msg : string) (toks : list string) (out : string) : bool :=
+  match prefix_rest msg out with Some rest => in_order toks rest | None => false end.
 
 (* number of frames (over the whole output) that must show a snippet *)
 Definition snippets_expected (m : srcmap) (e : err) : nat :=
@@ -76,15 +145,16 @@ Definition ok1 (s : st) (given : list rlit) (m : srcmap) (o : obs1) : bool :=
           str_eqb (o_q o) (custom_fmt id "q" (err_msg e)) && str_eqb (o_plus o) (custom_fmt id "v" (err_msg e))
       | None =>
           str_eqb (o_s o) (err_msg e) && str_eqb (o_v o) (err_msg e) && str_eqb (o_q o) (go_quote (err_msg e)) &&
-          (* the whole tree, in depth-first order (nested custom formatters are NOT invoked) *)
-          in_order (tree_tokens (tree_of e)) (o_plus o) &&
+          (* the message, then the whole tree in depth-first order, every item at the start of a line
+             with the indentation of its depth (nested custom formatters are NOT invoked) *)
+          shows_after_msg (err_msg e) (plus_toks m e) (o_plus o) &&
           (* snippets: exactly the frames configured, each marking one line *)
           Nat.eqb (count_occ_s "> " (o_plus o)) (tree_snippets m (tree_of e))
       end
   | None => false
   end.
 Definition ok (c : case) : bool :=
-  let s := run (c_prog c) in prog_ok (c_prog c) && forallb (ok1 s (c_given c) (c_src c)) (c_obs c).
+  let s := run (c_prog c) in prog_ok (c_prog c) && srcmap_wf (c_src c) && forallb (ok1 s (c_given c) (c_src c)) (c_obs c).
 
 Definition bad_ok (cs : list case) : list N := bad_idx ok cs.
 Definition bad_corr (cs : list case) : list N := bad_idx corr cs.
